@@ -38,3 +38,4 @@ open CaddyModel.C02
 #print axioms usageKey_eq_bookKey_of_not_unix
 #print axioms parseAddr_size_pos
 #print axioms usageKey_vs_bookKey_with_permission_bits
+#print axioms usage_key_expression_matches_source
